@@ -305,6 +305,9 @@ rename("C06-benign-rename-field-next-index-full", FMT, [("next_index", "high_wat
 rename("C15-benign-rename-field-next-index-full", FMT, [("next_index", "high_water")], "C15")
 rename("C08-benign-rename-field-flags-pm", PMA, [("cached_leaves_indices", "occupancy")], "C08")
 rename("C16-benign-rename-field-metadata-pm", PMA, [("self.metadata", "self.meta_bytes"), ("    metadata: Vec<u8>,", "    meta_bytes: Vec<u8>,"), ("            metadata: Vec::new(),", "            meta_bytes: Vec::new(),")], "C16")
+PH_IN = "    let (inputs, _) = bytes_le_to_vec_fr(&serialized)?;\n    let hash = utils_poseidon_hash(inputs.as_ref());"
+m("C09-public-poseidon-rejects-arity-8", PUB, PH_IN, "    let (inputs, _) = bytes_le_to_vec_fr(&serialized)?;\n    if inputs.is_empty() || inputs.len() >= 8 {\n        return Err(Report::msg(\"unsupported number of inputs\"));\n    }\n    let hash = utils_poseidon_hash(inputs.as_ref());", "C09")
+m("C09-benign-public-poseidon-arity-guard", PUB, PH_IN, "    let (inputs, _) = bytes_le_to_vec_fr(&serialized)?;\n    if inputs.is_empty() || inputs.len() > 8 {\n        return Err(Report::msg(\"unsupported number of inputs\"));\n    }\n    let hash = utils_poseidon_hash(inputs.as_ref());", "C09")
 m("C10-verify-len-guard-rejects-exact", PUB, "        if input_byte.len() < 128 + 5 * fr_byte_size() {\n            return Err(Report::msg(\"input data is too short\"));", "        if input_byte.len() <= 128 + 5 * fr_byte_size() {\n            return Err(Report::msg(\"input data is too short\"));", "C10")
 m("C10-vec-u8-guard-rejects-exact", UT, "    if len > input.len() - 8 {\n        return Err(Report::msg(\"vector length exceeds input data\"));", "    if len >= input.len() - 8 {\n        return Err(Report::msg(\"vector length exceeds input data\"));", "C10")
 
